@@ -367,6 +367,7 @@ def run(ctx):
     prefix_rule(ctx)
     flags_rule(ctx, syn)
     iri_rule(ctx, syn)
+    setlocal_rule(ctx)
     valueverbatim_rule(ctx, syn)
 
     # ---------------- SEP (separator / bracket typestate on the string accumulators)
@@ -786,3 +787,28 @@ def iri_rule(ctx, syn, rid="C17.IRI"):
             ctx.report(r, kind, "is_iri(%r) is %s, expected %s: %s" % (ident, got, want, "the identifier is an IRI already, but into_iri() now puts the configured prefix in front of it, so the exported target names another resource (`_:urn:isbn:..`)" if want else "something that is not an IRI is exported as one"), fn.file, fn.line, {"identifier": ident})
     r.hit("is_iri", sample={"identifiers_evaluated": n})
     ctx.floor(r, n, 10, "identifiers")
+
+
+
+# ---------------------------------------------------------------------- SETLOCAL
+def setlocal_rule(ctx, rid="C17.SETLOCAL", files=("src/api/webanno.rs",)):
+    """DataKeyHandle and AnnotationDataHandle number the keys / data of *one* dataset from 0.  The exporter walks the
+    data of an annotation, which may come from several sets, so a std map or set keyed by such a handle alone (a cache
+    of predicate IRIs per key, a `seen` set) confuses the first key of one set with the first key of another.
+    Type-directed: no local of the exporter's bodies is a BTreeMap / HashMap / BTreeSet / HashSet keyed by a
+    set-local handle."""
+    import mirq
+    r = ctx.rule(rid, "no collection of the exporter is keyed by a set-local handle (DataKeyHandle / AnnotationDataHandle) alone: the data of one annotation comes from several sets")
+    prog = mirq.Program(ctx.facts.mir())
+    rx = re.compile(r"(BTreeMap|HashMap|BTreeSet|HashSet)<(datakey::DataKeyHandle|annotationdata::AnnotationDataHandle)\s*[,>]")
+    n = 0
+    for bid, b in sorted(prog.bodies.items()):
+        if b.file not in files or b.d.get("derived"):
+            continue
+        n += 1
+        ctx.functions_analysed.add(bid)
+        bad = sorted(set(m.group(0).rstrip(",> ") for l_ in b.d.get("locals", []) for m in [rx.search(str(l_.get("ty")))] if m))
+        r.hit(bid, sample={"body": bid, "locals": len(b.d.get("locals", []))})
+        for ty in bad:
+            ctx.report(r, "%s|%s" % (mirq.short_fn(bid), ty), "%s keeps a `%s..>`: the handle is only unique within one dataset, and an annotation can carry data of several sets - entries of different sets with the same handle number are taken for one another (a value exported under the key of another set)" % (bid, ty), b.file, b.line)
+    ctx.floor(r, n, 8, "bodies of the exporter")
